@@ -25,7 +25,7 @@ CONTRACTS = os.path.join(ROOT, "contracts")
 EVIDENCE = os.environ.get("VK_EVIDENCE", os.path.join(ROOT, "evidence"))
 REPLAYS = os.environ.get("VK_REPLAYS", os.path.join(ROOT, "replays"))
 KNOWN = os.path.join(ROOT, "KNOWN_FINDINGS.txt")
-BUILD = os.environ.get("VK_BUILD", os.path.join(ROOT, ".build"))
+BUILD = os.environ.get("VK_BUILD") or os.path.join(ROOT, ".build", "run-%d" % os.getpid())   # per process: checks may run concurrently
 XSIM_PROPS = {"C01", "C07", "C08", "C09", "C10", "C11", "C18"}
 XREG_PROPS = {"C06", "C11"}
 
@@ -272,7 +272,7 @@ def write_replay(prop, f, unit_out):
             fh.write("difference between /repo's current text and the text the contract was written against (exec tokens):\n")
             fh.write(json.dumps(drift, indent=1) + "\n\n")
         fh.write("verifier output:\n%s\n" % f.rendered)
-        fh.write("\nre-run: cd /verif && ./check %s\nverified file: %s\n" % (prop, unit_out.get("path", "")))
+        fh.write("\nre-run: cd /verif && VK_KEEP_BUILD=1 ./check %s   (keeps the assembled file %s)\n" % (prop, unit_out.get("path", "")))
     return path
 
 
@@ -293,9 +293,13 @@ def main(argv=None):
         props = sorted(set().union(*[t.props for t in tmpls.values()]) | K.all_props())
     unit_cache, kani_cache = {}, {}
     rc = 0
-    for prop in props:
-        r = evaluate(prop, tier, tmpls, unit_cache, kani_cache)
-        rc = max(rc, r) if r != 1 and rc != 1 else 1
+    try:
+        for prop in props:
+            r = evaluate(prop, tier, tmpls, unit_cache, kani_cache)
+            rc = max(rc, r) if r != 1 and rc != 1 else 1
+    finally:
+        if not os.environ.get("VK_BUILD") and not os.environ.get("VK_KEEP_BUILD"):
+            shutil.rmtree(BUILD, ignore_errors=True)
     return rc
 
 
